@@ -38,6 +38,7 @@ func (fr *FnRun) call(st *State, site ssa.Instruction, c *ssa.CallCommon, depth 
 	fr.siteArgs = args
 	fr.checkCallSite(st, site, c)
 	fr.siteArgs = nil
+	fr.bumpCallCounters(st, site)
 	fr.callVal(st, site, c, fnv, args, depth, k)
 }
 
@@ -795,7 +796,8 @@ func (fr *FnRun) applyContract(st *State, site ssa.Instruction, ctr *Contract, f
 	}
 	// equality propagation for scalars defined by the postconditions
 	if os.Getenv("GOVC_NOPROP") == "" {
-		isFresh := func(n string) bool { return freshSuffixAfter(n, freshMark) }
+		propagated := map[string]bool{}
+		isFresh := func(n string) bool { return freshSuffixAfter(n, freshMark) && !propagated[n] }
 		for round := 0; round < 64; round++ {
 			// one defining equation at a time, so that definitions mentioning each other stay consistent
 			defs := map[string]*Term{}
@@ -811,6 +813,7 @@ func (fr *FnRun) applyContract(st *State, site ssa.Instruction, ctr *Contract, f
 			one := map[string]*Term{}
 			for k, v := range defs {
 				one[k] = v
+				propagated[k] = true
 				break
 			}
 			st.propagate(one)
@@ -1011,6 +1014,7 @@ func (fr *FnRun) runDefers(st *State, depth int, k func(st *State)) {
 		fr.siteArgs = d.args
 		fr.checkCallSite(st, d.site, d.call)
 		fr.siteArgs = nil
+		fr.bumpCallCounters(st, d.site)
 	}
 	fr.callVal(st, nil, d.call, d.fnv, d.args, depth, func(st2 *State, _ Val) {
 		fr.runDefers(st2, depth, k)
@@ -1094,6 +1098,7 @@ func (fr *FnRun) loopEnter(st *State, li *loopInfo, head, prev *ssa.BasicBlock) 
 			}
 		}
 	}
+	fr.loopCallCounters(st, li)
 	st.note(fmt.Sprintf("loop L%d", li.ordinal))
 	if spec.Decreases != nil {
 		st.vals[decKey(li)] = fr.evalTerm(spec.Decreases, env2)
